@@ -244,7 +244,13 @@ impl<'tcx> Ctx<'tcx> {
         // &str
         if let ty::Ref(_, inner, _) = cty.kind() {
             if inner.is_str() {
-                if let mir::Const::Val(cv, _) = c.const_ {
+                // literal, or a named constant (`const RE: &str = ..`) evaluated here
+                let cv_opt = match c.const_ {
+                    mir::Const::Val(cv, _) => Some(cv),
+                    mir::Const::Unevaluated(uv, _) if uv.promoted.is_none() => c.const_.eval(tcx, typing_env, c.span).ok(),
+                    _ => None,
+                };
+                if let Some(cv) = cv_opt {
                     if let ConstValue::Slice { .. } | ConstValue::Indirect { .. } = cv {
                         if let Some(bytes) = cv.try_get_slice_bytes_for_diagnostics(tcx) {
                             if let Ok(s) = std::str::from_utf8(bytes) {
